@@ -109,8 +109,10 @@ class BaseExtractor:
                         tables += self._add_dataset_from_expression_element(
                             from_expression_element, holder
                         )
-                    # each comma separated item can have explicit JOIN of its own
-                    for join_clause in from_expression.get_children("join_clause"):
+                    # each comma separated item can have explicit JOIN of its own, possibly in parenthesis
+                    for join_clause in from_expression.recursive_crawl(
+                        "join_clause", no_recursive_seg_type="select_statement"
+                    ):
                         tables += self._list_table_from_from_clause_or_join_clause(
                             join_clause, holder
                         )
